@@ -71,7 +71,6 @@ ASSUME "tcp.options" \in FrameFails(Set(TcpSyn4, 56, 0), 2048)                  
 ASSUME "tcp.options" \in FrameFails(Set(TcpSyn4, 41, 5), 2048)                         \* MSS with length 5
 ASSUME "tcp.options" \in FrameFails(Set(TcpSyn4, 58, 4), 2048)                         \* WS with length 4: runs past the header
 ASSUME FrameFails(Xor1(TcpSyn4, 27), 2048) = {"tcp.checksum"}
-ASSUME "tcp.options.synonly" \in FrameFails(Set(TcpSyn4, 33, 16), 2048)                \* the same options on a pure ACK
 
 \* ---- IPv4 / TCP data segment, 19 payload bytes (odd), NOP NOP TS
 TcpData4 == <<69, 0, 0, 71, 28, 70, 64, 0, 64, 6, 156, 82, 192, 168, 0, 1, 192, 168, 0, 199,
